@@ -136,16 +136,59 @@ func runOne(id string, pc *propCheck, wp **World, root, verif, tier string, seed
 	}
 	if *wp == nil {
 		*wp = Load(abs)
+		// fields grouped in anonymous structs are given back to their owner
+		func() {
+			defer func() {
+				if e := recover(); e != nil {
+					fmt.Printf("NOTE anonymous struct fields were not flattened: the rewritten copy does not load (%v)\n", e)
+				}
+			}()
+			if dir, names, why := flattenAnonStructFields(*wp); dir != "" {
+				note := fmt.Sprintf("analysed after giving the fields of the anonymous struct group(s) %v back to their owner (scratch copy, type-checked again)", names)
+				nw := Load(dir)
+				fmt.Println("NOTE " + note)
+				flattened = note
+				theWorld = nil
+				*wp = nw
+			} else if why != "" {
+				fmt.Printf("NOTE anonymous struct group(s) %v present but not flattened: %s\n", names, why)
+			}
+		}()
 		// wrapper types around a shared struct's table and its lock are flattened away in a
 		// scratch copy (flatten.go); the rules then see private helper methods of the owner
 		if dir, names, why := flattenWrappers(*wp); dir != "" {
-			flattened = fmt.Sprintf("analysed after flattening the wrapper type(s) %v into their owners (scratch copy; the rewriting is syntactic and the copy is type-checked again)", names)
+			if flattened != "" {
+				flattened += "; "
+			}
+			flattened += fmt.Sprintf("analysed after flattening the wrapper type(s) %v into their owners (scratch copy; the rewriting is syntactic and the copy is type-checked again)", names)
 			fmt.Println("NOTE " + flattened)
 			theWorld = nil
 			*wp = Load(dir)
 		} else if why != "" {
 			fmt.Printf("NOTE wrapper type(s) %v present but not flattened: %s\n", names, why)
 		}
+		// critical sections written as a literal handed to a lock-wrapping helper are inlined
+		func() {
+			defer func() {
+				if e := recover(); e != nil {
+					fmt.Printf("NOTE lock closures were not inlined: the rewritten copy does not load (%v)\n", e)
+				}
+			}()
+			theWorld = *wp
+			if dir, names, why := inlineLockClosures(*wp); dir != "" {
+				note := fmt.Sprintf("analysed after inlining the literals handed to the lock-wrapping helper(s) %v (scratch copy, type-checked again)", names)
+				nw := Load(dir)
+				fmt.Println("NOTE " + note)
+				if flattened != "" {
+					flattened += "; "
+				}
+				flattened += note
+				theWorld = nil
+				*wp = nw
+			} else if why != "" {
+				fmt.Printf("NOTE lock-wrapping helper(s) %v present but their literals were not inlined: %s\n", names, why)
+			}
+		}()
 		// Build's pipeline split into two functions: the tail call is inlined in a scratch copy
 		func() {
 			defer func() {
